@@ -488,14 +488,17 @@ def _abbrev(x, limit=600):
     return json.loads(s) if len(s) <= limit else s[:limit] + "..."
 
 
-def shrink_case(prop: Prop, case: dict, ctx: Ctx, still_fails, budget=400) -> dict:
+def shrink_case(prop: Prop, case: dict, ctx: Ctx, still_fails, budget=400, seconds=120.0) -> dict:
+    """greedy structure-aware shrinking, bounded by a number of evaluations and by wall-clock time
+    (a partly shrunk replay is fine; a check that spends its time limit shrinking is not)"""
     cur = case
     improved = True
-    while improved and budget > 0:
+    deadline = time.time() + float(os.environ.get("VERIF_SHRINK_S", seconds))
+    while improved and budget > 0 and time.time() < deadline:
         improved = False
         for cand in prop.shrink(cur):
             budget -= 1
-            if budget <= 0:
+            if budget <= 0 or time.time() >= deadline:
                 break
             try:
                 if still_fails(prop.evaluate(cand, ctx)):
